@@ -1,5 +1,6 @@
 import MosnVerif.Lemmas.Redact
 import MosnVerif.Lemmas.RawJson
+import MosnVerif.Lemmas.RedactGuards
 /-!
 # C20 — the admin config dump never leaks TLS private keys (property theorems only)
 
@@ -424,5 +425,86 @@ example : wWrites ⟨false, true, false⟩ docArr = 1 ∧ wWrites ⟨false, true
     cleanJ false docArr = false := by decide +kernel
 
 end Raw
+
+/-! ## totality of the walker: no attribute of an element exempts it from redaction
+
+The visit terms of `Model.Redact` redact every element **unconditionally**.  `Gen.RedactGuards.redactGuards` is the
+regenerated list of every control construct (if / continue / early return / loop subject / switch) of every
+redaction function of pkg/configmanager; `guardChecks` decides that each one is of a kind under which *skipping is
+the same as redacting* (empty container or nil pointer, unchanged JSON walk, empty key, loop over the whole
+container), that the subject of every emptiness test is a container of the regenerated type graph and the redact
+calls inside the guarded block are applied to that container, that the JSON walker has exactly the constructs the
+model `redJ` is written after, and that the list of redact calls is the one the visit terms are written after.
+A test of an ATTRIBUTE of the element in front of a redact call (`l.Network == "udp"`, `!tls.Status`,
+`c.ClusterType == …`, `c.ClusterManagerTLS`, a name …) is of no such kind: `guard_checks` stops checking. -/
+section Guards
+open MosnVerif.Model.RedactGuards
+
+/-- every control construct of the regenerated redaction functions is benign; calls and walker structure as modelled -/
+theorem guard_checks : guardChecks = true := by decide +kernel
+
+/-- **redaction_total**: (1) every guard of every typed redaction function of redact.go (regenerated) is of a
+benign kind; (2) a guard of a benign kind is transparent for the redaction it stands in front of — for every value
+the guarded code returns what the unconditional redaction of the model returns, and a skipped value is already
+what its redaction would be; hence whatever is dump-safe after the unconditional redaction is dump-safe after the
+guarded one; (3) composed with `no_key` / `holes`: after every history of updates every dump entry point is free
+of private keys, whatever the attributes (network, type, status flags, names …) of the elements: the model
+redacts each element kind of the regenerated type graph unconditionally (`graph_covered`). -/
+theorem redaction_total :
+    (∀ r ∈ typedGuards, (classify r).benign = true) ∧
+    (∀ r ∈ typedGuards, ∀ vis, benignFor (classify r) vis = true → ∀ v,
+        applyG (classify r) vis v = apply vis v ∧
+        ((classify r).skips v = true → apply vis v = v) ∧
+        (∀ g ck ch fi, clean g ck ch fi (apply vis v) = true → clean g ck ch fi (applyG (classify r) vis v) = true)) ∧
+    (∀ (ops : List Op), (∀ op ∈ ops, op.wtArg = true) → ∀ q out, dumpOut (run ops) q = some out →
+        clean G true false fiTop out = true ∧ clean G false true fiTop out = true) := by
+  refine ⟨?_, ?_, fun ops hops q out h => no_key_history ops hops q out h⟩
+  · have h := guard_checks
+    simp only [guardChecks, Bool.and_eq_true] at h
+    exact fun r hr => (List.all_eq_true.mp h.1.1.2) r hr
+  · intro r _ vis hb v
+    refine ⟨guard_transparent _ vis hb v, skip_is_identity _ vis hb v, ?_⟩
+    intro g ck ch fi hc
+    rw [guard_transparent _ vis hb v]; exact hc
+
+/-! ### non-vacuity and the negation witness for a network-guarded skip -/
+
+private def listenerNet (net : String) : Val :=
+  .struct "Listener" [("ListenerConfig", .struct "ListenerConfig" [("Name", .str "l0"), ("Network", .str net),
+    ("FilterChains", .list [.struct "FilterChain" [("TLSContexts", .list [tlsOf "K1"]),
+      ("FilterChainConfig", .struct "FilterChainConfig" [("TLSConfig", .list [tlsOf "K2"]), ("Filters", .list [filterOf "H1"])])]]),
+    ("StreamFilters", .list [filterOf "H2"])])]
+
+/-- `if l.Network == "udp" { dst[k] = l; continue }` in front of `redactListener(&l)` -/
+private def netGuard : GKind := .attr ["ListenerConfig", "Network"] "udp"
+
+/-- the benign kinds really skip something, and what they skip is returned unchanged by the redaction -/
+example : GKind.emptySkip.skips (.list []) = true ∧ GKind.unchangedSkip.skips (.hole (.obj [("private_key", .str "")])) = true ∧
+    GKind.keyEmptySkip.skips (tlsOf "") = true ∧ GKind.keyEmptySkip.skips (tlsOf "K") = false ∧
+    GKind.unchangedSkip.skips (.hole (.obj [("Private_Key", .str "K")])) = false := by decide +kernel
+
+/-- **witness**: the network guard is of no benign kind; on a tcp listener the guarded code redacts like the model;
+on a udp listener — a well-typed value of the graph with keys at every position of a tcp one — the model's output is
+clean and the guarded output is not (every key is still there). -/
+example : netGuard.benign = false ∧ wt G (.named "Listener") (listenerNet "udp") = true ∧
+    clean G true true fiTop (listenerNet "tcp") = false ∧
+    clean G true true fiTop (applyG netGuard redactListenerV (listenerNet "tcp")) = true ∧
+    clean G true true fiTop (apply redactListenerV (listenerNet "udp")) = true ∧
+    clean G true false fiTop (applyG netGuard redactListenerV (listenerNet "udp")) = false ∧
+    clean G false true fiTop (applyG netGuard redactListenerV (listenerNet "udp")) = false := by decide +kernel
+
+/-- the rows the extractor prints for attribute guards (network, TLS status, cluster type, cluster-manager TLS flag,
+a type switch with a default, a loop over a sub-slice) are all classified `unknown`: `guard_checks` fails on them -/
+example : [("redactedListeners", "if-continue", "cond:l.Network == \"udp\"", ""),
+           ("redactedListeners", "if-then", "cond:l.Network != \"udp\"", "l"),
+           ("redactTLSConfig", "if-return", "cond:!tls.Status", ""),
+           ("redactedClusters", "if-continue", "cond:c.ClusterType == v2.ORIGINAL_DST_CLUSTER", ""),
+           ("redactedClusters", "if-then", "cond:!c.ClusterManagerTLS", "c.TLS"),
+           ("redactListener", "if-then", "nonempty:fc.TLSContexts", "fc.TLSConfig"),
+           ("redactListener", "range", "l.FilterChains[1:]", "i"),
+           ("redactListener", "switch", "l.Type", "v2.INGRESS|default"),
+           ("redactedFilters", "branch", "continue", "")].all (fun r => classify r == .unknown) = true := by decide +kernel
+
+end Guards
 
 end MosnVerif.Props.C20
